@@ -762,7 +762,7 @@ def fam_free (rng, fam = None, seg_hi = 1 / 21., seg_lo = 1 / 100., nmax = 60, e
 
 def fam_ground (rng, fam = None, seg_hi = 1 / 21., seg_lo = 1 / 100., media = 'ideal', shift = True):
     """ structure family over a ground plane (z = 0) """
-    fams = ['mono', 'slope', 'invL', 'Tgnd', 'two', 'hdip', 'bent', 'gp', 'lean']
+    fams = ['mono', 'slope', 'invL', 'Tgnd', 'two', 'hdip', 'bent', 'gp', 'lean', 'stack']
     fam  = fam or str (rng.choice (fams))
     f, lam, segl, rad = pick_scale (rng, seg_lo, seg_hi)
     R = rot_z (rng.uniform (0, 2 * np.pi))
@@ -824,6 +824,16 @@ def fam_ground (rng, fam = None, seg_hi = 1 / 21., seg_lo = 1 / 100., media = 'i
         h = segl * rng.uniform (1.2, 12)
         L = n * segl
         add (n, [-L / 2, 0, h], [L / 2, 0, h], rev = rev)
+    elif fam == 'stack':
+        # two or three equal dipoles (horizontal or sloping) above each other: each a shifted copy of the lowest
+        n  = int (rng.integers (4, 16))
+        k  = int (rng.integers (2, 4))
+        h  = segl * rng.uniform (1.5, 8)
+        dz = max (lam * rng.uniform (0.15, 0.6), 2.5 * segl)
+        sl = float (rng.choice ([0.0, 0.0, 0.3]))
+        L  = n * segl
+        for i in range (k):
+            add (n, [-L / 2, 0, h + i * dz], [L / 2 * np.sqrt (1 - sl * sl) - L / 2 * (1 - np.sqrt (1 - sl * sl)), 0, h + i * dz + sl * L], rev = rev, feed_at = n // 2)
     elif fam == 'bent':
         n1, n2 = int (rng.integers (3, 10)), int (rng.integers (3, 10))
         h = segl * rng.uniform (1.2, 6)
